@@ -293,7 +293,10 @@ def run_check(pid, tier):
     def confirm(key):
         vs = classes[key]
         job = vs[0]["job"]
-        for v in vs[:2]:
+        # up to six members of the class, spread over it: a violation that depends on what an earlier case of the sweep left behind does not
+        # reproduce in a fresh process, but another member of the same class (whose own arguments contain the cause) does
+        step = max(1, len(vs) // 6)
+        for v in (vs[:2] + vs[2::step])[:6]:
             st, so, se = replay_case(exes[job["name"]], job, "%s %s" % (v["op"], v["args"].replace(",", " ")))
             if st in ("violation", "crash", "hang"):
                 confirmed_of[key] = v
